@@ -428,14 +428,15 @@ func ruleHandlerNeverNil(c *Ctx, rule string) {
 	// Build sets Injector.IsReturnError for every scheduled fallible provider
 	if build := genFn(c, rule, "(*Graph).Build"); build != nil {
 		okStore := false
-		for _, st := range storesToField(withClosures(build), "internal/kessoku.Injector.IsReturnError") {
+		for _, st := range storesToField(family(L, build), "internal/kessoku.Injector.IsReturnError") {
 			k, isConst := st.Val.(*ssa.Const)
 			if !isConst || k.Value == nil || k.Value.String() != "true" {
 				continue
 			}
 			for _, iff := range controllingIfs(st) {
 				s := newSym(L, map[string]bool{})
-				if strings.Contains(strings.Join(s.eval(iff.Cond), "|"), "ProviderSpec.IsReturnError(field:internal/kessoku.node.providerSpec(") && iff.Block().Succs[0] == st.Block() {
+				s.maxD = 0
+				if strings.Contains(strings.Join(liftParams(L, pkgFuncs(L, genPkg), st.Parent(), s.eval(iff.Cond)), "|"), "ProviderSpec.IsReturnError(field:internal/kessoku.node.providerSpec(") && iff.Block().Succs[0] == st.Block() {
 					okStore = true
 				}
 				break
@@ -736,9 +737,19 @@ func ruleContextThreaded(c *Ctx, rule string) {
 	if fn := genFn(c, rule, "generateAsyncInitialization"); fn != nil {
 		ok := false
 		why := "call not found"
+		// the function that emits `errgroup.WithContext(<ctx>)` and the parameter that becomes <ctx> (found by content, so that
+		// the declaration builder may be split into a with-context and a without-context variant)
+		wcFn, wcIdx := withContextBuilder(L)
 		for _, cs := range callsIn(fn) {
-			if calleeIs(c, cs, genPkg, "generateErrGroupDeclaration") {
+			isDecl := calleeIs(c, cs, genPkg, "generateErrGroupDeclaration")
+			if wcFn != nil {
+				isDecl = cs.common.StaticCallee() == wcFn
+			}
+			if isDecl {
 				arg := cs.common.Args[len(cs.common.Args)-1]
+				if wcFn != nil && wcIdx < len(cs.common.Args) {
+					arg = cs.common.Args[wcIdx]
+				}
 				s := newSym(L, map[string]bool{})
 				ts := s.eval(arg)
 				why = strings.Join(ts, " | ")
@@ -966,4 +977,62 @@ func handlerFactory(gs *ssa.Function) *ssa.Function {
 		}
 	}
 	return nil
+}
+
+// withContextBuilder: the generator function that builds the `<errgroup>.WithContext(<ctx>)` call, and the index of its
+// parameter that is emitted as <ctx> (the identifier placed in the call's argument list).
+func withContextBuilder(L *Loaded) (*ssa.Function, int) {
+	for _, fn := range pkgFuncs(L, genPkg) {
+		if fn.Parent() != nil {
+			continue
+		}
+		has := false
+		for _, cs := range callsIn(fn) {
+			if cs.callee == "go/ast.NewIdent" {
+				if s, ok := constString(cs.arg(0)); ok && s == "WithContext" {
+					has = true
+				}
+			}
+		}
+		if !has {
+			continue
+		}
+		for _, cs := range callsIn(fn) {
+			if cs.callee != "go/ast.NewIdent" || cs.value() == nil {
+				continue
+			}
+			p, isP := resolve(cs.arg(0)).(*ssa.Parameter)
+			if !isP || p.Parent() != fn {
+				continue
+			}
+			// emitted as an element of an argument list (a slice literal element), not as a selector's qualifier
+			for _, r := range *cs.value().Referrers() {
+				var v ssa.Value = cs.value()
+				if mi, ok := r.(*ssa.MakeInterface); ok {
+					v = mi
+					for _, r2 := range *mi.Referrers() {
+						if st, ok := r2.(*ssa.Store); ok && st.Val == v {
+							if _, isIdx := st.Addr.(*ssa.IndexAddr); isIdx {
+								for i, q := range fn.Params {
+									if q == p {
+										return fn, i
+									}
+								}
+							}
+						}
+					}
+				}
+				if st, ok := r.(*ssa.Store); ok && st.Val == v {
+					if _, isIdx := st.Addr.(*ssa.IndexAddr); isIdx {
+						for i, q := range fn.Params {
+							if q == p {
+								return fn, i
+							}
+						}
+					}
+				}
+			}
+		}
+	}
+	return nil, 0
 }
